@@ -167,9 +167,13 @@ class Gen:
             full = '.'.join(ns + [base])
             if m is not None and m.extern is not None and base == m.extern:
                 continue
+            if m is not None and base in m.params + m.locals and (not ns or ns == m.ns):
+                continue  # a global spelled like one of the macro's own names is shadowed inside it when it is a bare name, or
+                #          lives in the macro's OWN namespace (the one namespace alias parameters get). in any other namespace -
+                #          an enclosing one included - it is a different name, and the macro can refer to it
             if m is not None and base in m.params + m.locals:
-                continue  # a global whose base name equals one of the macro's own names is shadowed inside it (directly, or
-                #          through the namespace alias of parameters) and cannot be referenced from this macro
+                self.out.features['globals-of-other-namespaces-spelled-like-own-names'] = \
+                    self.out.features.get('globals-of-other-namespaces-spelled-like-own-names', 0) + 1
             out.append(('global', full))
         return out
 
